@@ -1,6 +1,6 @@
 """check configuration for C08 (loaded by lib/zvprops.py)"""
 
-PROP = {'gen_tables': ['Pools'],
+PROP = {'gen_tables': ['Pools', 'TransJsonEnc'],
  'race': True,
  'rule': 'ops: histories (quick: 168 + 36 targeted, 200 same-logger, 600 random pinned, 60 concurrent; thorough: 204 + 3000 + 10000 + 800). Each case = one observed call + a history of 1–12 operations. Observed call: (70 %) an encoder-family op '
          '(JSON or console; the generator of C01/C02/C10/C16: hostile keys, nested marshalers, dangling namespaces, reflected values, '
